@@ -83,9 +83,11 @@ VARIABLES at,      \* [Hosts -> <<s,p>>]
           ctl,     \* [Switches -> [Hosts -> 0..NP]] what the controller learned (packet-in sources)
           flows,   \* [Switches -> set of cached flows]
           bufs,    \* [Switches -> occupied packet buffers at quiescence]
+          opt,     \* launch options of the learning component + time since the switches connected:
+                   \* [hold, transp, up]  (up saturates at hold)
           last,    \* observation of the last action
           hist     \* all observations (export only)
-svars == <<at, seen, ctl, flows, bufs>>
+svars == <<at, seen, ctl, flows, bufs, opt>>
 vars  == <<svars, last, hist>>
 view  == <<svars, last>>
 viewE == svars
@@ -99,8 +101,16 @@ Covers(fl, i, f) == /\ fl.inp \in {0, i} /\ fl.src \in {0, f.src}
                     /\ fl.dst \in {0, f.dst} /\ f.sh \in fl.shs
 
 Frame(src, dst, sh) == [src |-> src, dst |-> dst, sh |-> sh]
-Filtered(f) == f.sh = "l" \/ f.dst = FILT
-Group(f)    == f.dst \in {BCAST, MCAST}
+\* LAUNCH OPTIONS of the component (Round 8).  `transparent`: the bridge forwards link-local traffic too, i.e.
+\* clause C2 does not apply - an LLDP-typed frame is handled by its destination like any other, a
+\* bridge-filtered destination is the multicast address it is.  `hold_down` = N: for the first N seconds after a
+\* switch connected the controller does not flood (clause C3 becomes C3h: a flood-class frame decided by the
+\* controller is delivered NOWHERE while up < N; it still is a sighting, and its buffer is still released - C5).
+\* The option sets a configuration explores (Init: opt \in Opts; overridable).
+Opts == {[hold |-> 0, transp |-> FALSE, up |-> 0]}
+Filtered(f) == ~opt.transp /\ (f.sh = "l" \/ f.dst = FILT)
+Group(f)    == f.dst \in {BCAST, MCAST, FILT}     \* (FILT gets here only when not Filtered)
+Held        == opt.up < opt.hold
 
 Learn(sn, m, i) == [sn EXCEPT ![m] = [ports |-> @.ports \cup {i}, last |-> i]]
 \* m appearing on another port makes every cached flow towards m an OLDER flow
@@ -117,7 +127,8 @@ Known(sn, f) == f.dst \in Hosts /\ sn[f.dst].last # 0
 \* the clauses; sn = sightings, known / older as seen by this hop
 C1(i, hp)               == i \notin hp.out /\ hp.out \subseteq Ports /\ hp.dup = 0 /\ hp.mod = 0
 C2(f, hp)               == Filtered(f) => hp.out = {}
-C3(i, f, hp, known)     == (~Filtered(f) /\ (Group(f) \/ ~known)) => hp.out = Ports \ {i}
+C3(i, f, hp, known)     == (~Filtered(f) /\ (Group(f) \/ ~known)) =>
+                             hp.out = (IF Held /\ hp.pktin > 0 THEN {} ELSE Ports \ {i})
 C4a(f, hp, sn, known)   == (~Filtered(f) /\ ~Group(f) /\ known) => hp.out \subseteq sn[f.dst].ports
 C4b(i, f, hp, sn, known, older) ==
   (~Filtered(f) /\ ~Group(f) /\ known /\ (hp.pktin > 0 \/ ~older)) => hp.out = {sn[f.dst].last} \ {i}
@@ -135,7 +146,7 @@ Failed(s, i, f, hp) ==
   LET j == Judge(s, i, f, hp) IN
   (IF j.c1 THEN <<>> ELSE <<"C1-ingress-dup-modified">>) \o
   (IF j.c2 THEN <<>> ELSE <<"C2-filtered-forwarded">>) \o
-  (IF j.c3 THEN <<>> ELSE <<"C3-flood">>) \o
+  (IF j.c3 THEN <<>> ELSE <<IF Held /\ hp.pktin > 0 THEN "C3h-flood-during-hold-down" ELSE "C3-flood">>) \o
   (IF j.c4a THEN <<>> ELSE <<"C4a-port-never-seen">>) \o
   (IF j.c4b THEN <<>> ELSE <<"C4b-not-most-recent-port">>) \o
   (IF j.c5 THEN <<>> ELSE <<"C5-buffer-leak">>)
@@ -146,7 +157,7 @@ Demanded(s, i, f, hp) ==
   LET sn    == SeenAt(s, i, f)
       known == Known(sn, f)
       older == \E fl \in FlowsAt(s, i, f) : Covers(fl, i, f) /\ fl.stale
-  IN IF Filtered(f) THEN {} ELSE IF Group(f) \/ ~known THEN Ports \ {i}
+  IN IF Filtered(f) THEN {} ELSE IF Group(f) \/ ~known THEN (IF Held /\ hp.pktin > 0 THEN {} ELSE Ports \ {i})
      ELSE IF hp.pktin > 0 \/ ~older THEN {sn[f.dst].last} \ {i} ELSE {0}
 
 \* the hops are exactly the frame's way through the network: it starts where
@@ -186,7 +197,7 @@ Effect(f, hops) ==
   /\ flows' = [s \in Switches |-> IF s \in Reached(hops)
                 THEN FlowsAfter(s, HopAt(hops, s).i, f, HopAt(hops, s)) ELSE flows[s]]
   /\ bufs' = [s \in Switches |-> IF s \in Reached(hops) THEN HopAt(hops, s).buf ELSE bufs[s]]
-  /\ UNCHANGED at
+  /\ UNCHANGED <<at, opt>>
 
 SendObs(h, dst, sh, hops) ==
   LET f == Frame(h, dst, sh) IN
@@ -202,6 +213,7 @@ TickObs(d, tbls) ==
         LET aged == {Older(fl, d) : fl \in flows[s]}
             kept == {fl \in aged : Pat(fl) \in tbls[s]}
         IN kept \cup {FreshOf(p) : p \in tbls[s] \ Pats(kept)}]
+  /\ opt' = [opt EXCEPT !.up = IF @ + d > opt.hold THEN opt.hold ELSE @ + d]
   /\ UNCHANGED <<at, seen, ctl, bufs>>
 
 ----------------------------------------------------------------------------
@@ -219,7 +231,7 @@ NewFlow(inp, f, out, ito, hto) ==
 \* "same").
 Classes == {"lldp", "filt", "group", "unknown", "same", "fwd"}
 ClassOf(f, cn, i) ==
-  IF f.sh = "l" THEN "lldp" ELSE IF f.dst = FILT THEN "filt" ELSE IF Group(f) THEN "group"
+  IF Filtered(f) /\ f.sh = "l" THEN "lldp" ELSE IF Filtered(f) THEN "filt" ELSE IF Group(f) THEN "group"
   ELSE IF ~(f.dst \in Hosts /\ cn[f.dst] # 0) THEN "unknown"
   ELSE IF cn[f.dst] = i THEN "same" ELSE "fwd"
 \* DUTIES the controller owes to EVERY packet-in, whatever its class: learn the
@@ -254,7 +266,7 @@ DesignHop(s, i, f, cache) ==
            gone  == IF DeleteOnMove /\ cls \in DeleteOn /\ moved
                     THEN {fl \in flows[s] : fl.src = f.src} ELSE {}
            out   == IF Filtered(f) THEN {}
-                    ELSE IF Group(f) \/ ~known THEN Ports \ {i}
+                    ELSE IF Group(f) \/ ~known THEN (IF Held THEN {} ELSE Ports \ {i})
                     ELSE {p} \ {i}
            inst  == IF Filtered(f) \/ Group(f) \/ ~known \/ ~cache THEN {}
                     ELSE IF p = i
@@ -262,7 +274,8 @@ DesignHop(s, i, f, cache) ==
                     ELSE {NewFlow(i, f, {p}, IdleTO, HardTO)}
        IN [s |-> s, i |-> i, pktin |-> 1, out |-> out, dup |-> 0, mod |-> 0,
            inst |-> inst, tbl |-> Pats(flows[s] \ gone) \cup Pats(inst), buf |-> 0,
-           via |-> IF Filtered(f) THEN "filtered" ELSE IF Group(f) \/ ~known THEN "flood"
+           via |-> IF Filtered(f) THEN "filtered"
+                   ELSE IF Group(f) \/ ~known THEN (IF Held THEN "held" ELSE "flood")
                    ELSE IF p = i THEN "same-port" ELSE "forward",
            lrn |-> IF cls \in LearnOn THEN 1 ELSE 0,
            \* the packet-in of a source that has moved, by decision class; "+" when
@@ -289,6 +302,7 @@ Init == /\ at = InitAt
         /\ ctl = [s \in Switches |-> [m \in Hosts |-> 0]]
         /\ flows = [s \in Switches |-> {}]
         /\ bufs = [s \in Switches |-> 0]
+        /\ opt \in Opts
         /\ last = NoObs /\ hist = <<>>
 
 \* the design's hops, applied through the property layer's effect only (the
@@ -302,7 +316,7 @@ Send(h, dst, sh, cache) ==
 Move(h, sp) ==
   /\ sp # at[h]
   /\ at' = [at EXCEPT ![h] = sp]
-  /\ UNCHANGED <<seen, ctl, flows, bufs>>
+  /\ UNCHANGED <<seen, ctl, flows, bufs, opt>>
   /\ Log("Move", [h |-> h, s |-> sp[1], p |-> sp[2]], [x |-> 0], {})
 
 Tick(d, sweep) ==
@@ -329,6 +343,22 @@ ViaSamePort  == \E h \in Hosts, fr \in Frames, c \in Caches : Send(h, fr[1], fr[
 ViaFlow      == \E h \in Hosts, fr \in Frames, c \in Caches : Send(h, fr[1], fr[2], c) /\ HasVia("flow")
 ViaDropFlow  == \E h \in Hosts, fr \in Frames, c \in Caches : Send(h, fr[1], fr[2], c) /\ HasVia("drop-flow")
 ViaOlderFlow == \E h \in Hosts, fr \in Frames, c \in Caches : Send(h, fr[1], fr[2], c) /\ HasVia("older-flow")
+\* Round 8: the option dimension - a flood held down; a link-local frame (LLDP ethertype / bridge-filtered
+\* destination) forwarded by a transparent bridge, by flooding and by a unicast decision; a known unicast
+\* forwarded during the hold-down; the hold-down running out
+OptDepth == 2
+LinkLocal(fr) == fr[2] = "l" \/ fr[1] = FILT
+ViaHeld      == Len(hist) < OptDepth /\ \E h \in Hosts, fr \in Frames, c \in Caches : Send(h, fr[1], fr[2], c) /\ HasVia("held")
+HeldForward  == Len(hist) < OptDepth /\ \E h \in Hosts, fr \in Frames, c \in Caches : Send(h, fr[1], fr[2], c) /\ Held /\ HasVia("forward")
+TranspFlood  == Len(hist) < OptDepth /\ \E h \in Hosts, fr \in Frames, c \in Caches :
+                 Send(h, fr[1], fr[2], c) /\ opt.transp /\ LinkLocal(fr) /\ HasVia("flood")
+TranspUni    == Len(hist) < OptDepth /\ \E h \in Hosts, fr \in Frames, c \in Caches :
+                 Send(h, fr[1], fr[2], c) /\ opt.transp /\ LinkLocal(fr) /\ (HasVia("forward") \/ HasVia("flow"))
+HoldExpires  == Len(hist) < OptDepth /\ \E d \in Gaps, sw \in Sweeps : Tick(d, sw) /\ Held /\ opt'.up >= opt'.hold
+HoldGoesOn   == Len(hist) < OptDepth /\ \E d \in Gaps, sw \in Sweeps : Tick(d, sw) /\ opt'.up < opt'.hold
+\* (the cases are counted on the first OptDepth steps: each costs one more pass over the Sends, all are reachable
+\* within two steps)
+NextCO == Next \/ ViaHeld \/ HeldForward \/ TranspFlood \/ TranspUni \/ HoldExpires \/ HoldGoesOn
 ViaLink      == \E h \in Hosts, fr \in Frames, c \in Caches :
                  Send(h, fr[1], fr[2], c) /\ Cardinality(last'.full) > 1
 TickExpires  == \E d \in Gaps, sw \in Sweeps : Tick(d, sw) /\ flows' # flows /\ \E s \in Switches : Cardinality(flows'[s]) < Cardinality(flows[s])
@@ -364,6 +394,7 @@ TypeOK ==
   /\ \A s \in Switches : \A fl \in flows[s] :
         /\ fl.inp \in {0} \cup Ports /\ fl.out \subseteq Ports
         /\ fl.age \in 0..Cap /\ fl.idle \in 0..fl.age
+  /\ opt.hold \in Nat /\ opt.up \in 0..opt.hold /\ opt.transp \in BOOLEAN
 
 \* the controller always knows the port an address was last seen on: no
 \* cached flow of the design hides a move
@@ -400,15 +431,21 @@ Conforms == [][StepOK]_vars
 NeverBack ==
   [][last'.a = "Send" => \A hp \in last'.full : hp.i \notin hp.out]_vars
 FilteredStay ==
-  [][(last'.a = "Send" /\ (last'.args.sh = "l" \/ last'.args.dst = FILT))
+  [][(last'.a = "Send" /\ ~opt.transp /\ (last'.args.sh = "l" \/ last'.args.dst = FILT))
         => \A hp \in last'.full : hp.out = {}]_vars
 FloodAll ==
-  [][(last'.a = "Send" /\ last'.args.sh # "l" /\ last'.args.dst \in {UNK, BCAST, MCAST})
+  [][(last'.a = "Send" /\ ~Held /\ last'.args.sh # "l" /\ last'.args.dst \in {UNK, BCAST, MCAST})
         => \A hp \in last'.full : hp.out = Ports \ {hp.i}]_vars
+\* while the hold-down lasts the controller floods nothing, and releases every buffer all the same
+HeldQuiet ==
+  [][(last'.a = "Send" /\ Held) => \A hp \in last'.full :
+        /\ hp.buf = 0
+        /\ (hp.pktin = 1 /\ (last'.args.dst \in {UNK, BCAST, MCAST} \/ (opt.transp /\ last'.args.dst = FILT))
+              /\ (opt.transp \/ last'.args.sh # "l")) => hp.out = {}]_vars
 \* a frame to a host the switch's controller has sighted, decided by the
 \* controller, leaves through exactly the port of the latest sighting
 FreshDecision ==
-  [][(last'.a = "Send" /\ last'.args.sh # "l" /\ last'.args.dst \in Hosts)
+  [][(last'.a = "Send" /\ (opt.transp \/ last'.args.sh # "l") /\ last'.args.dst \in Hosts)
         => \A hp \in last'.full :
              (hp.pktin = 1 /\ seen'[hp.s][last'.args.dst].last # 0)
                 => hp.out = {seen'[hp.s][last'.args.dst].last} \ {hp.i}]_vars
@@ -420,5 +457,8 @@ ExportT == PrintT(<<"T", ToJson(hist')>>)
 \* witness export (ACTION_CONSTRAINT): a step that breaks the property is printed
 \* and not explored further; meaningful on MUTANT designs only (on the design
 \* itself Conforms says there is none)
+\* the same with the options of the behaviour (configurations that explore several option sets)
+ExportO  == (Len(hist) = D) => PrintT(<<"O", ToJson([opt |-> opt, hist |-> hist])>>)
+ExportTO == PrintT(<<"O", ToJson([opt |-> opt', hist |-> hist'])>>)
 WitnessT == IF StepOK THEN TRUE ELSE PrintT(<<"W", ToJson(hist')>>) /\ FALSE
 =============================================================================
